@@ -39,7 +39,7 @@ fn decode_all_case<const N: usize>() {
     kani::cover!(n >= 4 && a[0] == 0xff && a[1] == 0xff && a[2] == 0xff && a[3] == 0xff, "prefix announcing 2^31-1 bytes");
 }
 
-// @harness name=c16_decode_all_8 props=C16,C03 tier=quick timeout=400
+// @harness name=c16_decode_all_8 props=C16,C03 tier=quick timeout=2400
 // @bound every byte string of length 0..8 (all 2^64 contents x 9 lengths); decoded to exhaustion (<= 4 pairs)
 // @functions NVIter::new, NVIter<&[u8]>::next, NVIter::size_hint, NVIter::into_inner, VarInt::read, Bytes for &[u8]
 #[kani::proof]
@@ -79,7 +79,7 @@ fn prefix_case<const N: usize>() {
     kani::cover!(cnt == 0 && k > 0 && k < n, "prefix cuts the first pair");
 }
 
-// @harness name=c16_prefix_monotone_8 props=C16 tier=quick timeout=400
+// @harness name=c16_prefix_monotone_8 props=C16 tier=quick timeout=2400
 // @bound every byte string of length 0..8 and every prefix length k <= n
 // @functions NVIter<&[u8]>::next
 #[kani::proof]
@@ -121,14 +121,14 @@ fn mut_agrees_case<const N: usize>() {
     kani::cover!(cnt == 2, "two pairs");
 }
 
-// @harness name=c16_mut_agrees_8 props=C16 tier=quick timeout=400
+// @harness name=c16_mut_agrees_8 props=C16 tier=quick timeout=2400
 // @bound every byte string of length 0..8; shared and mutable iterators run in lockstep
 // @functions NVIter<&mut [u8]>::next, NVIter<&[u8]>::next, Bytes for &mut [u8]
 #[kani::proof]
 #[kani::unwind(6)]
 fn c16_mut_agrees_8() { mut_agrees_case::<8>(); }
 
-// @harness name=c16_roundtrip_short props=C16 tier=quick timeout=400
+// @harness name=c16_roundtrip_short props=C16 tier=quick timeout=2400
 // @bound two pairs, each name/value length symbolic 0..3 with symbolic contents; writer &mut [u8] of symbolic capacity 0..20
 // @functions nv::write, NVIter<&[u8]>::next, VarInt::write, VarInt::try_from
 #[kani::proof]
